@@ -188,7 +188,7 @@ def check_lis_plot(case, cc):
 # ---------------------------------------------------------------------------------------------
 #: honour the documented meaning of STAT ("Status, is this curve to be plotted", docs/source/tech/plotting.rst; CurveCfg.stat
 #: "True if can be plotted"): an output all of whose curves on a film are DISA has no polyline on that film
-ASSERT_STAT = True
+ASSERT_STAT = False   # C19 does not state what STAT=DISA means for a plot and the repository tests pin DISA curves as plotted: not judged
 
 #: (GCOD, GDEC) pairs that FILMCfg.PhysFilmCfgLISRead documents for three track films: GCOD_GDEC_MAP, the "equivalent"
 #: GCOD_GDEC_ALT_MAP, and the spellings with a blank fourth GDEC character that _retTracks repairs ("-4- " -> "-4--")
@@ -223,7 +223,7 @@ CODIS = [b'LLIN', b'LSPO', b'LDAS', b'LGAP', b'HLIN', b'HSPO', b'HDAS', b'HGAP']
 COLOS = [b'BLAC', b'RED ', b'GREE', b'BLUE', b'AQUA', b'000 ', b'400 ', b'134 ', b'444 ']
 CHANNEL_NAMES = ['GR', 'SP', 'CALI', 'ILD', 'ILM', 'SFLU', 'RHOB', 'NPHI', 'DT', 'TENS', 'LLD', 'MSFL']
 LIN_EDGES = [(0.0, 150.0), (-80.0, 20.0), (0.45, -0.15), (1.95, 2.95), (140.0, 40.0), (5.0, 15.0), (0.0, 100.0), (20.0, 70.0), (42.5, 100.0),
-             (0.0, 42.5), (100.0, 0.0), (0.0, 10.0), (-1e6, 1e6), (0.0, 1e-3), (1000.0, 0.0), (0.0, 1e30), (10.0, 15.0)]
+             (0.0, 42.5), (100.0, 0.0), (0.0, 10.0), (-1e6, 1e6), (0.0, 1e-3), (1000.0, 0.0), (0.0, 1e30), (10.0, 15.0), (40.0, 45.0), (0.0, 5.0), (25.0, 20.0)]
 LOG_EDGES = [(0.2, 2000.0), (2.0, 20000.0), (0.1, 1000.0), (1.0, 10.0), (2000.0, 200000.0), (2000.0, 0.2), (1.0, 100.0), (10.0, 1.0), (42.5, 4250.0),
              (1e-30, 1e30), (20.0, 70.0)]
 X_INCHES = {b'FEET': 12.0, b'M   ': 1.0 / 0.0254, b'.1IN': 0.1}
